@@ -3,7 +3,8 @@ import Netconan.Model.Decoders
 import Netconan.Proofs.WordsNoSurvival
 import Netconan.Proofs.QuadCheck
 import Netconan.Proofs.LangCheck
-import Netconan.Proofs.Ipv4Pinned
+import Netconan.Proofs.PatShape
+import Netconan.Pinned.Patterns
 import Netconan.Model.Md5
 import Netconan.Pinned.Patterns
 import Netconan.Generated.Patterns
